@@ -48,7 +48,7 @@ theorem nonuniform_spec (S : List Int) (pre post as ae : Int) (rel : Bool) (elem
   splitNonUniformIter_eq S pre post as ae hS rel elems hsorted
 
 example : splitNonUniformIter [0, 3] 1 0 0 6 true [((1 : Int), (10 : Int)), (2, 20), (5, 50)] =
-    some [⟨0, [(1, 10), (2, 20)], 0, 3⟩, ⟨3, [(-1, 20), (2, 50)], 3, 6⟩] := by
+    some [⟨0, [(1, 10), (2, 20)], 0, 3⟩, ⟨3, [(-1, 20), (2, 50)], 0, 3⟩] := by
   decide
 
 /-- the former crash `Fiber([3],[5]).splitNonUniform([4], pre_halo=1)` (active range `[0,4)`): no partition -/
@@ -183,12 +183,13 @@ theorem lossless_position (B : List Int) (as ae : Int) (elems : Fib Int π) (hB 
   intro x _
   by_cases h : as ≤ x.1 <;> simp [h]
 
-/-- **active ranges, uniform**: each lower's active range is its interval clipped to the parent's,
-    it is non-empty, inside the parent's, and (halo 0) contains all the lower's elements -/
-theorem active_clip (step pre post as ae : Int) (rel : Bool) (elems : Fib Int π) (hstep : 0 < step)
-    (hact : as < ae) (p : Part π) (hp : p ∈ uSpec step pre post as ae rel elems) :
+/-- **active ranges, uniform** (absolute coordinates; with `relativeCoords` the same range shifted by
+    the partition start, see `relative_spec`): each lower's active range is its interval clipped to the
+    parent's, it is non-empty, inside the parent's, and (halo 0) contains all the lower's elements -/
+theorem active_clip (step pre post as ae : Int) (elems : Fib Int π) (hstep : 0 < step)
+    (hact : as < ae) (p : Part π) (hp : p ∈ uSpec step pre post as ae false elems) :
     p.lo = max p.start as ∧ p.hi = min (p.start + step) ae ∧ as ≤ p.lo ∧ p.lo < p.hi ∧ p.hi ≤ ae := by
-  obtain ⟨P, hP, _, rfl⟩ := (mem_uSpec step pre post as ae rel elems p).1 hp
+  obtain ⟨P, hP, _, rfl⟩ := (mem_uSpec step pre post as ae false elems p).1 hp
   obtain ⟨_, h2, h3⟩ := (mem_uCands step as ae hstep P).1 hP
   refine ⟨rfl, rfl, ?_, ?_, ?_⟩
   · show as ≤ max P as; omega
@@ -207,13 +208,13 @@ theorem active_contains (step as ae : Int) (elems : Fib Int π) (hstep : 0 < ste
   show max P as ≤ e.1 ∧ e.1 < min (P + step) ae
   omega
 
-/-- **active ranges, non-uniform** -/
-theorem active_clip_nonuniform (S : List Int) (pre post as ae : Int) (rel : Bool) (elems : Fib Int π)
-    (hS : S.Pairwise (· < ·)) (hact : as < ae) (p : Part π) (hp : p ∈ nuSpec S pre post as ae rel elems) :
+/-- **active ranges, non-uniform** (absolute coordinates; relative: `relative_spec_nonuniform`) -/
+theorem active_clip_nonuniform (S : List Int) (pre post as ae : Int) (elems : Fib Int π)
+    (hS : S.Pairwise (· < ·)) (hact : as < ae) (p : Part π) (hp : p ∈ nuSpec S pre post as ae false elems) :
     ∃ i, ∃ h : i < S.length, p.start = S[i] ∧ p.lo = max S[i] as ∧
       p.hi = (match S[i + 1]? with | some t => min t ae | none => ae) ∧
       as ≤ p.lo ∧ p.lo < p.hi ∧ p.hi ≤ ae := by
-  obtain ⟨i, hi, hne, rfl⟩ := (mem_nuSpec S pre post as ae rel elems p).1 hp
+  obtain ⟨i, hi, hne, rfl⟩ := (mem_nuSpec S pre post as ae false elems p).1 hp
   obtain ⟨x, hx⟩ := List.exists_mem_of_ne_nil _ hne
   rw [List.mem_filter] at hx
   obtain ⟨s, hs, _, _, x3, x4, _⟩ := (nuMemb_iff S pre post as ae i x.1).1 hx.2
@@ -236,14 +237,16 @@ theorem active_clip_nonuniform (S : List Int) (pre post as ae : Int) (rel : Bool
 theorem relative_spec (step pre post as ae : Int) (elems : Fib Int π) :
     uSpec step pre post as ae true elems =
       (uSpec step pre post as ae false elems).map
-        (fun p => { p with elems := p.elems.map (fun e => (e.1 - p.start, e.2)) }) := by
+        (fun p => { p with elems := p.elems.map (fun e => (e.1 - p.start, e.2)),
+                           lo := p.lo - p.start, hi := p.hi - p.start }) := by
   rw [uSpec_eq_map, uSpec_eq_map, List.map_map]
   rfl
 
 theorem relative_spec_nonuniform (S : List Int) (pre post as ae : Int) (elems : Fib Int π) :
     nuSpec S pre post as ae true elems =
       (nuSpec S pre post as ae false elems).map
-        (fun p => { p with elems := p.elems.map (fun e => (e.1 - p.start, e.2)) }) := by
+        (fun p => { p with elems := p.elems.map (fun e => (e.1 - p.start, e.2)),
+                           lo := p.lo - p.start, hi := p.hi - p.start }) := by
   unfold nuSpec
   rw [List.map_filterMap]
   apply filterMap_congr'
@@ -251,7 +254,7 @@ theorem relative_spec_nonuniform (S : List Int) (pre post as ae : Int) (elems : 
   by_cases h : (elems.filter (fun e => nuMemb S pre post as ae i e.1)).isEmpty = true <;> simp [h, mkPart]
 
 example : uSpec 2 0 0 0 6 true [((1 : Int), (10 : Int)), (3, 30)] =
-    [⟨0, [(1, 10)], 0, 2⟩, ⟨2, [(1, 30)], 2, 4⟩] := by decide
+    [⟨0, [(1, 10)], 0, 2⟩, ⟨2, [(1, 30)], 0, 2⟩] := by decide
 
 /-- **partitions of partitions tile the original** (absolute coordinates, halo 0): re-splitting every
     lower uniformly, with the lower's own active range, loses and duplicates nothing -/
@@ -481,9 +484,9 @@ example := halo_membership_nonuniform [0, 3, 7] 1 2 0 9 exF ⟨3, [(2, 20), (5, 
 example := lossless 2 0 9 exF (by decide) exF_sorted
 example := lossless_nonuniform [2, 6] 0 9 exF (by decide) exF_sorted
 example := lossless_position [0, 5] 0 9 exF (by decide) exF_sorted rfl
-example := active_clip 4 1 1 1 7 false exF (by decide) (by decide) ⟨4, [(5, 50), (6, 60)], 4, 7⟩ (by decide)
+example := active_clip 4 1 1 1 7 exF (by decide) (by decide) ⟨4, [(5, 50), (6, 60)], 4, 7⟩ (by decide)
 example := active_contains 4 1 7 exF (by decide) ⟨4, [(5, 50), (6, 60)], 4, 7⟩ (by decide)
-example := active_clip_nonuniform [0, 3, 7] 0 0 1 8 false exF (by decide) (by decide) ⟨0, [(1, 10), (2, 20)], 1, 3⟩ (by decide)
+example := active_clip_nonuniform [0, 3, 7] 0 0 1 8 exF (by decide) (by decide) ⟨0, [(1, 10), (2, 20)], 1, 3⟩ (by decide)
 example := resplit_tiles 4 2 0 9 exF (by decide) (by decide) exF_sorted
 example := truediv_parts 9 2 false exF (by decide) (by decide)
 example := floordiv_parts 5 2 0 9 false exF (by decide) (by decide)
